@@ -82,6 +82,13 @@ def make(rng, tier):
         for k in sc.keys:
             sc.ops.append("storeget %s" % G.rawhex(k))
         scs.append(sc)
+    # shutdown while a handler is in the middle of writing a large reply to a slow (not dead) reader: the reply must arrive whole
+    n = 32000000
+    ops = ["conn w", "send w %s" % G.rawhex(b"*3\r\n" + bulk(b"SET") + bulk(b"huge") + b"$%d\r\n" % n), "send w %dx5a" % n, "send w 0d0a", "recv w 5 20000",
+           "send w %s" % G.rawhex(arr(bulk(b"GET"), bulk(b"huge"))), "recv w 11 20000", "sleep 300", "shutdown", "sleep 300", "recv w eof 30000", "waitrun 4000"]
+    sc = N.Scenario("slow-reader", "maxconn=8", ops)
+    sc.kind, sc.sets, sc.nclients, sc.keys, sc.total = "slow-reader", {}, 0, [], len(b"$%d\r\n" % n) + n + 2
+    scs.append(sc)
     # the recorded finding: shutdown while a handler is blocked writing to a client that does not read
     big = bytes([90]) * 4000000
     ops = ["conn w", "send w %s" % G.rawhex(b"*3\r\n" + bulk(b"SET") + bulk(b"huge") + b"$4000000\r\n"), "send w 4000000x5a", "send w 0d0a", "recv w 5 5000",
@@ -119,6 +126,17 @@ def main(tier, seed):
             continue
         o = {op: sc.out[i + 1] for i, op in enumerate(sc.ops) if i + 1 < len(sc.out)}
         wr = next((sc.out[i + 1] for i, op in enumerate(sc.ops) if op.startswith("waitrun")), "missing")
+        if sc.kind == "slow-reader":
+            head = o.get("recv w 11 20000", "missing")
+            rest = o.get("recv w eof 30000", "missing")
+            st, nb = (rest.split(":", 2) + ["", ""])[:2]
+            got = 11 + (int(nb) if nb.isdigit() else 0)
+            if not head.startswith("ok:11:2433323030303030300d0a"[:6]) or st not in ("eof", "reset") or got != sc.total:
+                rep.failing.append({"what": "a reply in flight at shutdown was torn: the client read %d of the %d bytes of the reply to GET, then %s"
+                                            % (got, sc.total, st or rest[:30]), "kind": sc.kind, "ops": [x[:70] for x in sc.ops]})
+            elif not wr.startswith("returned"):
+                rep.failing.append({"what": "run() did not return within 4 s after the slow reader had read its whole reply", "waitrun": wr})
+            continue
         if sc.kind == "blocked-writer":
             if wr.startswith("timeout"):
                 if any(k.get("class") == "blocked-writer" for k in known):
@@ -164,7 +182,8 @@ def main(tier, seed):
         "evaluations": len(scs), "distinct_nontrivial": len(kinds), "acknowledged_sets_checked": nacked,
         "rule": "shutdown fired while 1-3 clients are idle / have sent half a request / are in the middle of a burst of 20-60 pipelined "
                 "SETs / are sending a 3 MB SET / mixed; run() must return within 4 s, every client stream must be a whole number of "
-                "replies then end of stream, every SET whose reply was received must be in the store; plus the recorded blocked-writer "
+                "replies then end of stream, every SET whose reply was received must be in the store; a client that is slowly reading a 32 MB "
+                "reply when shutdown fires must receive it whole; plus the recorded blocked-writer "
                 "scenario; distinct = client-state families",
         "kinds": kinds,
         "samples": [{"kind": scs[0].kind, "ops": [x[:60] for x in scs[0].ops[:8]], "out": [x[:60] for x in (scs[0].out or [])[:8]]}],
